@@ -18,7 +18,8 @@ ops (written by `harness/cmd/c12/mw`):
 
 Verdicts.  `reads` of the live world: implementation ≠ per-feature map spec → `propfail reads-differ-from-map`;
 after a rejected AddFeature / failed MergedChange any difference to the dump before the call →
-`propfail rejected-changed-world`; `partial` → `propfail merged-partially-applied`; a snapshot's dump that
+`propfail rejected-changed-world`; `partial` → `propfail merged-partially-applied`; a merged change for which
+the hypothesis `canaryRefsAgree` of `merged_atomic_of_refs` is false → `propfail hypothesis canary-refs-agree …`; a snapshot's dump that
 differs from the first dump taken of it (or from the spec map frozen with it) → `propfail snapshot-changed`.
 Anything else that differs from the Lean model's answer → `diff`.
 -/
@@ -292,7 +293,16 @@ def step (st : St) (op impl : String) : St × Verdict :=
       | none => (st, .bad)
   | ["mapply"] =>
     let cs := st.pending
+    -- the executable hypothesis of C13 `merged_atomic_of_refs`, evaluated on the state before the call
+    let hyp := match st.store with
+      | some s => (match s.layers with
+        | l :: _ => canaryRefsAgree s.baseView planar l cs
+        | [] => true)
+      | none => true
     let (st, v) := mutate st (.merged cs) impl (fun w => B6.Spec.World.applyOp w (.merged cs))
+    let v := match v with
+      | .ok => if hyp then .ok else .propfail "hypothesis canary-refs-agree is false for this merged change"
+      | other => other
     ({ st with pending := [] }, v)
   | ["snapshot"] =>
     match st.store with
